@@ -446,6 +446,8 @@ func runHistory11(g *cv.Gen, t *Tables, res *hx.Result, st *stores, maxSteps int
 		res.Count(w.class+"/"+o.Kind, outc, fmt.Sprintf("%s/%d/%s/%d/%d", o.Kind, before, outc, len(live), removedSoFar), false)
 	}
 	res.CaseIndex = append(res.CaseIndex, w.class)
+	res.Sample(map[string]interface{}{"class": w.class, "channels": len(w.chans), "peers": len(w.pool), "removed": removedSoFar,
+		"history": append([]string(nil), w.opLog...)})
 	pool := hx.ListOf(w.pool, func(p Peer) string { return hx.Hex(p.Enc) })
 	specs := make([]string, len(w.chans))
 	for i, c := range w.chans {
